@@ -30,8 +30,15 @@ EXPLANATION = {
             "every other column; the error classes can be constructed and printed; validate_array_shapes (called by EEMSWrite) meets its contract; EEMSWrite hands the "
             "csv writer the result names in the listed order. Assumed: csv, open, float/repr, numpy. Bounded (B-CSV): reads of generated tables and bit-identical write->read "
             "round trips on real files."),
-    "netcdf": ("Proved: the error classes of the NetCDF library can be constructed and printed; validate_array_shapes meets its contract; insure_fuzzy (used for Fuzzy data) "
-               "under C04. Assumed: netCDF4 and numpy. Bounded (B-NC): write->read round trips over shapes, element kinds, mask placements, several results written "
+    "netcdf": ("Proved on the real body of the NetCDF EEMSRead.execute, with netCDF4 abstracted to the variable it delivers (shape, element kind, values, library mask): "
+               "NoSuchVariable iff the dataset lacks the variable; InvalidPositiveData iff a Positive type is requested and the smallest valid value is negative; "
+               "InvalidFuzzyData iff Fuzzy is requested and the valid values leave [-1.02, 1.02]; otherwise a masked array of the file's shape, float by default, of the "
+               "requested element kind otherwise (float data rounded to the nearest integer for the integer kinds), clamped to [-1, 1] for Fuzzy, missing exactly where the "
+               "library masks the cell or the resulting value equals the declared missing value (converted to the element kind); the payload written under missing cells is "
+               "unobservable. On the real body of the NetCDF EEMSWrite.execute, with every netCDF4 object external (any call allowed, none touches mpilot's arrays): the mask-union "
+               "loop leaves, cell by cell, `missing in any result` (invariant over the running union, lemma PMISS-MONO); the write loop creates exactly one variable per "
+               "result, named after it, and stores into it an array of the results' shape and that result's element kind and values, missing exactly where any written "
+               "result is missing; no input array is modified; EmptyInputs / MixedArrayShapes biconditionals. Also: the error classes can be constructed and printed; validate_array_shapes meets its contract; insure_fuzzy under C04. Assumed: netCDF4 and numpy. Bounded (B-NC): write->read round trips over shapes, element kinds, mask placements, several results written "
                "together, all read-parameter combinations, template dimension variables copied unchanged."),
 }
 
@@ -272,6 +279,9 @@ def verify_csv_read(repo):
     registry.load(repo)
     eng = Engine(repo, dict(S.CONTRACTS), dict(S.LOOPS))
     install(eng)
+    from . import ncprops
+
+    ncprops.install(eng)  # shared numpy models (isclose, getmaskarray, | on boolean arrays, issubdtype)
     serprops.install(eng)  # str(int) = STR_I, exact str.format
     eng.precise_format = True
     eng.lx = {}
@@ -503,7 +513,9 @@ def verify_csv_write(repo):
 
 def verify(repo, which):
     if which != "csv":
-        return [], []
+        from . import ncprops
+
+        return ncprops.verify(repo)
     out, fns = [], []
     for f, label in ((verify_csv_read, "EEMSRead"), (verify_csv_write, "EEMSWrite")):
         try:
